@@ -3,7 +3,7 @@
 _SM = [('c32_sm_legacy', 0), ('c32_sm_lesc', 1), ('c32_sm_comb', 2)]
 for _n, _k in _SM:
     target(_n, 'engines/comp/c32_sm.cpp',
-           quick=dict(cases=100000, size=40), thorough=dict(cases=1000000, size=60),
+           quick=dict(cases=150000, size=40), thorough=dict(cases=1000000, size=60),
            cxxflags=['-DSM_ONLY=%d' % _k],
            extra_src=['$REPO/bluetoe/utility/address.cpp'])
 
